@@ -32,7 +32,8 @@ GenNew == MCNew \cup { R(a, 7, <<>>, <<>>, <<1, 97, 192, 12>>), R(ab, 8, <<>>, <
                        R(n127, TNS, a, <<>>, <<>>), R(b, TAAAA, <<>>, <<>>, [i \in 1..16 |-> i * 3]) }
 GInit == \E m \in GenInit, c \in BOOLEAN : /\ w = EncMsg(m, c) /\ abs = m /\ edits = 0 /\ hist = <<>> /\ comp = c /\ init0 = m
 GNext == /\ edits < MaxEdits /\ edits' = edits + 1 /\ UNCHANGED <<comp, init0>>
-         /\ \E sec \in {"q", "an", "ns", "ar"}, r \in GenNew : Add(sec, r) /\ hist' = Append(hist, [sec |-> sec, rec |-> r])
+         \* the first two insertions range over all record kinds, a third one (thorough tier) over the three of the model-checked set
+         /\ \E sec \in {"q", "an", "ns", "ar"}, r \in (IF edits < 2 THEN GenNew ELSE MCNew) : Add(sec, r) /\ hist' = Append(hist, [sec |-> sec, rec |-> r])
 GSpec == GInit /\ [][GNext]_gvars
 W0 == EncMsg(init0, comp)
 Emit == (edits = MaxEdits) => PrintT("SCN " \o ToJson([init |-> init0, comp |-> comp, bytes |-> W0.bytes, counts |-> W0.counts, edits |-> hist]))
